@@ -191,7 +191,7 @@ structure Inv (cfg : Cfg) (G : Ev → Prop) (Ex : Nat → Prop) (s : State) : Pr
   infl_job : ∀ e ∈ s.inflight, (s.jobs e.ino).isSome
   sorted : Sorted G s.inflight
   down : s.up = false → (∀ i, s.jobs i = none) ∧ s.inflight = []
-  skipped : ∀ e ∈ s.skipped, G e → CoversG G s.acked e.ino (e.off, e.data)
+  skipped : ∀ e ∈ s.skipped, ¬ Ex e.ino → CoversG G s.acked e.ino (e.off, e.data)
   /-- an in-flight event that is not good is stale: its commit will be ignored -/
   bad : ∀ e ∈ s.inflight, ¬ G e → ∃ j, s.jobs e.ino = some j ∧ e.seq ≤ j.ignoreLE
   /-- the next event of every pipeline stream is good -/
